@@ -1294,6 +1294,17 @@ class _Identifiers:
                     self.locally_declared
                 ):
                     self.undeclared.add(ident)
+            # the defs written inside the call are defined in this scope,
+            # where the defaults of their arguments are evaluated
+            for n in node.nodes:
+                if isinstance(n, parsetree.DefTag):
+                    for ident in n.undeclared_identifiers():
+                        if (
+                            ident != "context"
+                            and ident
+                            not in self.declared.union(self.locally_declared)
+                        ):
+                            self.undeclared.add(ident)
 
 
 _FOR_LOOP = re.compile(
